@@ -85,8 +85,11 @@ func c06(r *core.Run) {
 	c06PureLookup(r, "R6")
 	r.Rule("R13", "the name is tokenised at every separator (shared with C17.G9): the lookup never splits with Fields / FieldsFunc, which drop empty tokens - a name with an empty token would match a pattern it does not match token by token, and a name of separators only would reach the matcher with no token at all (index out of range on the listener goroutine)", 1)
 	c17ExactTokens(r, "R13", []string{""}, "mux")
+	if ro := resolveMuxRolesFor(r, "R2"); ro != nil {
+		c06DefaultGroupOnlyWithoutGroup(r, "R2", ro)
+	}
 	c06NoEarlyFailure(r, "R9", ro)
-	c06RegistrationAccepts(r, ro)
+	c06RegistrationAccepts(r, "R10", ro)
 	c06PrefixBoundary(r, "R7")
 	c06MountAware(r, "R11", ro)
 	c06AcceptHasHandler(r, "R12", root, ro)
@@ -246,6 +249,42 @@ func c06Specificity(r *core.Run, rule string, ro *muxRoles) {
 						}
 					}
 					r.Check(retTrue && cont, rule, "matchNode", "recursive-result:true->return-true,false->next-candidate", p.InstrPos(x), "a failed deeper match falls through to the less specific candidate (backtracking)", fmt.Sprintf("recursive match handling broken: trueEdgeReturnsTrue=%v falseEdgeContinues=%v", retTrue, cont))
+					// ... and the next candidate after a failed *literal* attempt is the placeholder: when the
+					// candidate of this attempt may be the literal child, no path leads from its failure to
+					// the wildcard candidate without passing the read of the placeholder child
+					mayBeLiteral := false
+					for _, a := range c.Common().Args {
+						for _, src := range phiSources(a) {
+							if lk, ok := src.V.(*ssa.Lookup); ok {
+								if f, ok := core.LoadedField(lk.X); ok && f == nodeNodes {
+									mayBeLiteral = true
+								}
+							}
+							if ex, ok := src.V.(*ssa.Extract); ok {
+								if lk, ok := ex.Tuple.(*ssa.Lookup); ok {
+									if f, ok := core.LoadedField(lk.X); ok && f == nodeNodes {
+										mayBeLiteral = true
+									}
+								}
+							}
+						}
+					}
+					if mayBeLiteral {
+						parBlocks := map[*ssa.BasicBlock]bool{}
+						for _, q := range par {
+							parBlocks[q.Block()] = true
+						}
+						skips := false
+						for _, w := range wild {
+							if parBlocks[w.Block()] {
+								continue
+							}
+							if !parBlocks[fBlk] && reachAvoiding(fBlk, w.Block(), func(b *ssa.BasicBlock) bool { return parBlocks[b] }, nil) {
+								skips = true
+							}
+						}
+						r.Check(!skips, rule, "matchNode", "failed-literal-attempt->placeholder-before-wildcard", p.InstrPos(x), "after a literal branch that dead-ends the placeholder child is tried before the wildcard", "a path leads from the failed attempt on the literal child straight to the full-wildcard candidate without reading the placeholder child: a name that follows a literal branch and dead-ends there is not routed to the placeholder pattern that matches it (no match, or the less specific wildcard handler)")
+					}
 				case *ssa.Return:
 					r.Bad(rule, "matchNode", "no-unconditional-return-of-recursion", p.InstrPos(x), "the recursive result is returned directly: a failed literal branch would not fall back to the placeholder/wildcard sibling")
 				}
@@ -1389,11 +1428,11 @@ func c06NoEarlyFailure(r *core.Run, rule string, ro *muxRoles) {
 
 // c06RegistrationAccepts is C06.R10: the trie insertion (fetch) under an
 // assumption on the current token.
-func c06RegistrationAccepts(r *core.Run, ro *muxRoles) {
+func c06RegistrationAccepts(r *core.Run, rule string, ro *muxRoles) {
 	p := r.P
 	fn := ro.fetch
 	if fn == nil {
-		r.Unres("R10", "fetch", "not resolved")
+		r.Unres(rule, "fetch", "not resolved")
 		return
 	}
 	unit := map[*ssa.Function]bool{}
@@ -1437,7 +1476,7 @@ func c06RegistrationAccepts(r *core.Run, ro *muxRoles) {
 		}
 	}
 	if len(tok) == 0 {
-		r.Unres("R10", core.FuncName(fn), "no pattern token value found in the trie insertion")
+		r.Unres(rule, core.FuncName(fn), "no pattern token value found in the trie insertion")
 		return
 	}
 	cmpInt := func(a int64, op token.Token, b int64) int8 {
@@ -1551,7 +1590,7 @@ func c06RegistrationAccepts(r *core.Run, ro *muxRoles) {
 				}
 			}
 		}
-		r.Check(bad == "", "R10", core.FuncName(fn), "accepts-token:"+sc.what, p.Pos(fn.Pos()), "no panic is reachable in the trie insertion when the token is \""+sc.text+"\"", "registration panics (at "+bad+") for a pattern token \""+sc.text+"\": a pattern the documentation calls valid and Pattern.IsValid accepts (\"user."+sc.text+"\") cannot be registered")
+		r.Check(bad == "", rule, core.FuncName(fn), "accepts-token:"+sc.what, p.Pos(fn.Pos()), "no panic is reachable in the trie insertion when the token is \""+sc.text+"\"", "registration panics (at "+bad+") for a pattern token \""+sc.text+"\": a pattern the documentation calls valid and Pattern.IsValid accepts (\"user."+sc.text+"\") cannot be registered")
 	}
 }
 
@@ -1825,4 +1864,56 @@ func c06AddValidates(r *core.Run, rule string, ro *muxRoles) {
 	}
 	g, ok := panicsUnlessCall(add, "IsValid")
 	r.Check(ok && fetchCall != nil && core.Dominates(g, fetchCall), rule, core.FuncName(add), "IsValid-panic-before-fetch", p.Pos(add.Pos()), "an invalid pattern panics before the trie is touched, whichever public method registered it", "the common registration function does not reject patterns Pattern.IsValid rejects before inserting nodes: a public entry point that does not validate on its own (AddHandler) registers patterns with a wildcard character in the middle of a token, '?', spaces or non-ASCII bytes, hands them to OnRegister and routes names no validator accepts")
+}
+
+// c06DefaultGroupOnlyWithoutGroup: the group evaluator falls back on the
+// resource name exactly when no group was configured (the nil group). A
+// fallback on any other condition (no tokens, as for the root pattern) makes a
+// configured static group be ignored there, and the resource is queued under
+// its own name beside the other members of its group.
+func c06DefaultGroupOnlyWithoutGroup(r *core.Run, rule string, ro *muxRoles) {
+	p := r.P
+	ts := ro.toString
+	if ts == nil || len(ts.Params) < 2 {
+		r.Unres(rule, "group.toString", "not resolved")
+		return
+	}
+	recv := ts.Params[0]
+	var name *ssa.Parameter
+	for _, prm := range ts.Params[1:] {
+		if isStringType(prm.Type()) {
+			name = prm
+		}
+	}
+	if name == nil {
+		r.Unres(rule, "group.toString.<resource-name>", "no string parameter")
+		return
+	}
+	n := 0
+	for _, ret := range core.Returns(ts) {
+		for _, src := range phiSources(ret.Results[0]) {
+			if core.Strip(src.V) != ssa.Value(name) {
+				continue
+			}
+			n++
+			onNil := false
+			for _, ed := range srcEdges(ret, src) {
+				ci := core.Cond(ed.If.Cond)
+				if ci.Kind != "nilcmp" || core.Strip(ci.X) != ssa.Value(recv) {
+					continue
+				}
+				truth := ed.Succ == 0
+				if ci.Negate {
+					truth = !truth
+				}
+				if (ci.Op == token.EQL) == truth {
+					onNil = true
+				}
+			}
+			r.Check(onNil, rule, core.FuncName(ts), "resource-name-returned-only-for-the-nil-group", p.InstrPos(ret), "the resource name is the group only when no group was configured", "the group evaluator returns the resource name on a path where a group may be configured (not only on the group==nil edge): a static group on such a pattern (the root pattern has no tokens) is ignored, the resource gets a worker group of its own and runs beside the other members of the configured group")
+		}
+	}
+	if n == 0 {
+		r.Bad(rule, core.FuncName(ts), "resource-name-returned-only-for-the-nil-group", p.Pos(ts.Pos()), "the group evaluator never returns the resource name (rule went vacuous)")
+	}
 }
